@@ -306,10 +306,12 @@ theorem C17_validation_lin_reif_counterexample :
     documentedInvalid (.linLen 2 1 0 true) = true ∧ (outcome (.linLen 2 1 0 true)).verdict = .sol := by decide
 
 /-- `with_max_memory_mb(1); let x = m.int(-1000000, 1000000); m.add(x, 1)`: the budget rejects
-`x`, the dummy `VarId(0)` of a model without variables is dereferenced -/
-theorem C17_validation_memory_counterexample :
+`x`; on the pinned tree the dummy `VarId(0)` of a model without variables was dereferenced (panic).
+Since fix 39d3272 the dummy names a placeholder variable and every entry point reports
+`MemoryLimit` (the former counterexample, now the repaired behaviour on the same witness). -/
+theorem C17_validation_memory_repaired :
     documentedInvalid (.mem 1 (-1000000) 1000000 true true) = true ∧
-    (outcome (.mem 1 (-1000000) 1000000 true true)).verdict = .panic := by decide
+    (outcome (.mem 1 (-1000000) 1000000 true true)).verdict = .err .memoryLimit := by decide
 
 theorem C17_validation_full_statement_false : ¬ FullStatement := by
   intro h
@@ -317,9 +319,9 @@ theorem C17_validation_full_statement_false : ¬ FullStatement := by
   revert this
   decide
 
-/-- **C17 (validation table, guarded).**  Outside the three known findings (`isFinding`:
+/-- **C17 (validation table, guarded).**  Outside the two known findings (`isFinding`:
 empty-domain variable used by a view / result-variable function, reified linear helper with
-mismatched lengths, rejected first variable used afterwards) every documented invalid input —
+mismatched lengths; the third one, a rejected first variable used afterwards, is repaired) every documented invalid input —
 reversed bounds, empty value set, empty min/max list, coefficient/variable length mismatch, zero in
 a divisor's domain, element index entirely out of range, exceeded memory budget — surfaces as an
 `Err` value (`InvalidDomain`, `InvalidInput`, `InvalidConstraint`, `MemoryLimit`) or as an
@@ -359,10 +361,7 @@ theorem C17_validation_table_partial (sc : Scenario) (hinv : documentedInvalid s
     simp [outcome, Outcome.surfaced, this]
   | mem limit lo hi post first =>
     simp only [documentedInvalid] at hinv
-    have hnp : ¬ (post = true ∧ first = true ∧ memXRejected limit lo hi first = true) := by
-      rintro ⟨rfl, rfl, h⟩
-      simp [isFinding, h] at hg
-    simp [outcome, Outcome.surfaced, hinv, hnp]
+    simp [outcome, Outcome.surfaced, hinv]
   | tableArity nv rl => simp [documentedInvalid] at hinv
   | allDiffDup d => simp [documentedInvalid] at hinv
   | allDiff ds => simp [documentedInvalid] at hinv
@@ -375,8 +374,8 @@ theorem C17_validation_table :
     (∀ nc nv rel, nc ≠ nv → outcome (.linLen nc nv rel false) = ⟨none, .err .invalidConstraint⟩) ∧
     (∀ lo hi o r, lo ≤ 0 → 0 ≤ hi → outcome (.zeroDiv lo hi o r) = ⟨none, .err .invalidConstraint⟩) ∧
     (∀ (n : Nat) (lo hi : Int) (r : Nat), (hi < 0 ∨ lo ≥ (n : Int)) → lo ≤ hi → outcome (.elem n lo hi r) = ⟨none, .noSolution⟩) ∧
-    (∀ limit lo hi post, memExceeded limit lo hi post false = true →
-        outcome (.mem limit lo hi post false) = ⟨none, .err .memoryLimit⟩) := by
+    (∀ limit lo hi post first, memExceeded limit lo hi post first = true →
+        outcome (.mem limit lo hi post first) = ⟨none, .err .memoryLimit⟩) := by
   refine ⟨?_, ?_, ?_, ?_, ?_, ?_, ?_⟩
   · intro lo hi h; simp [outcome, h]
   · simp [outcome]
@@ -387,7 +386,7 @@ theorem C17_validation_table :
     have : ¬ ((if lo > 0 then lo else 0) ≤ (if hi < (n : Int) - 1 then hi else (n : Int) - 1)) := by
       split <;> split <;> omega
     simp [outcome, this]
-  · intro limit lo hi post h; simp [outcome, h]
+  · intro limit lo hi post first h; simp [outcome, h]
 
 /-! ### the all-different validation rows of the table -/
 
